@@ -305,6 +305,13 @@ add("C04", "fixed", "output-differs:logical", "str() of a comparison dropped the
 add("C04", "fixed", "reparse-error:keyword-spelled-segment", "Path.__str__ wrote a bracketed segment spelled like a keyword in dot notation: a['if'] became a.if (does not parse) and ['true'] / ['empty'] became the literals true / empty",
     [c04("{{ a['if'] }}"), c04("{{ ['true'] }}{{ ['empty'] }}"), c04("{% for i in a['in'] %}{{ i }}{% endfor %}"), c04("{% render 'q' with d['blank'] as s %}")], "edcd94e")
 
+# ----------------------------------------------------------------------------- C03 fixed in round 3
+add("C03", "fixed", "warning-for-clean-template:case",
+    "the case tag's when parser discarded whatever followed a syntax error in every mode, strict included: '{% when 1, xs[\"b\"] c %}' parsed cleanly in strict mode (and dropped the second "
+    "alternative), while warn mode reported the strict-only path check as a warning and lax mode kept the alternative",
+    [{"source": "{% case a %}{% when 1, xs[\"b\"] c %}one{% when 2 %}two{% endcase %}", "data": V.enc({"a": 1, "xs": {"b": 1}}), "env": {"extra": True}},
+     {"source": "{% case a %}{% when 1, xs[\"b\"] c %}one{% endcase %}", "data": V.enc({"a": 5, "xs": {"b": 5}}), "env": {}}], "779ff08")
+
 if __name__ == "__main__":
     # further entries are appended by tools/mkfindings.py from triaged replay files and kept in findings_extra.json
     extra_path = os.path.join(VERIF, "tools", "findings_extra.json")
